@@ -129,6 +129,9 @@ void list_output_sweet16(
     fprintf(asm_context->list, "0x%04x: %-8s %-40s", start, temp, instruction);
 
     start += count;
+
+    // One instruction per line when the range holds several.
+    if (start < end) { fprintf(asm_context->list, "\n"); }
   }
 }
 
